@@ -1,6 +1,91 @@
-"""Self-tests of the machinery (determinism, setup smoke, schema)."""
+"""Self-tests of the machinery: setup smoke, determinism (fresh interpreters, other hash seeds), evidence schema."""
+
+from __future__ import annotations
+
+import json
+import os
+import subprocess
+import sys
+from pathlib import Path
+
+VERIF = Path(__file__).resolve().parent.parent
+
+
+def all_props() -> list[str]:
+    man = json.loads((VERIF / "MANIFEST.json").read_text())
+    return [c["property_id"] for c in man["checks"]]
+
+
+def setup() -> int:
+    """Import everything, install/remove the seams, run one history per registered scenario."""
+    from . import runner, scenarios
+
+    failures = 0
+    for prop in all_props():
+        scn = scenarios.make(prop)
+        res = scn.execute(runner.run_seed(0, prop, 0), None)
+        print(f"setup smoke {prop}: {res['status']} ({len(res['program']['ops'])} ops)")
+        if res["status"] not in ("ok", "violation", "foreign", "suspect"):
+            failures += 1
+    (VERIF / "evidence").mkdir(exist_ok=True)
+    return 1 if failures else 0
+
+
+def _digests(prop: str, n: int, hashseed: str) -> list[str]:
+    env = dict(os.environ)
+    env["VERIF_HASHSEED"] = hashseed
+    env["PYTHONHASHSEED"] = hashseed
+    env.pop("VERIF_REEXEC", None)
+    out = subprocess.run([str(VERIF / "check"), prop, "--digests", str(n)], env=env, capture_output=True, text=True, timeout=1200)
+    if out.returncode != 0:
+        raise RuntimeError(f"digest run failed for {prop}: {out.stdout[-500:]} {out.stderr[-500:]}")
+    return out.stdout.strip().splitlines()
+
+
+def determinism(n: int = 40) -> int:
+    """Same seeds in fresh interpreters under PYTHONHASHSEED 0, 0 again and 12345: event-log digests must agree."""
+    from concurrent.futures import ThreadPoolExecutor
+
+    bad = 0
+    props = all_props()
+    jobs = [(p, hs) for p in props for hs in ("0", "0", "12345")]
+    with ThreadPoolExecutor(max_workers=min(16, len(jobs))) as pool:
+        results = list(pool.map(lambda j: _digests(j[0], n, j[1]), jobs))
+    for i, prop in enumerate(props):
+        a, b, c = results[3 * i: 3 * i + 3]
+        same = a == b == c
+        diff = [k for k in range(min(len(a), len(b), len(c))) if not (a[k] == b[k] == c[k])]
+        print(f"determinism {prop}: {n} seeds x 3 fresh interpreters (hash seeds 0, 0, 12345): {'identical' if same else 'DIVERGED at runs ' + str(diff[:5])}")
+        if not same:
+            bad += 1
+            for k in diff[:2]:
+                print("   ", a[k], "|", b[k], "|", c[k])
+    return 2 if bad else 0
+
+
+def schema() -> int:
+    code = (
+        "import json,sys,glob,jsonschema\n"
+        "s=json.load(open('/root/.vp/EVIDENCE.schema.json'))\n"
+        "m=json.load(open('/verif/MANIFEST.json'))\n"
+        "jsonschema.validate(m,json.load(open('/root/.vp/MANIFEST.schema.json')))\n"
+        "bad=0\n"
+        "for f in sorted(glob.glob('/verif/evidence/*.json')):\n"
+        "    try:\n"
+        "        jsonschema.validate(json.load(open(f)),s); print('schema ok',f)\n"
+        "    except Exception as e:\n"
+        "        bad+=1; print('schema FAIL',f,str(e)[:300])\n"
+        "sys.exit(1 if bad else 0)\n"
+    )
+    return subprocess.run(["python3-vt", "-c", code], check=False).returncode
 
 
 def main(args) -> int:
-    print("selftest: not built yet")
+    if args.setup:
+        return setup()
+    if args.determinism:
+        return determinism(args.runs or 40)
+    if args.schema:
+        return schema()
+    print("selftest: choose --setup, --determinism [--runs N] or --schema")
     return 0
